@@ -1,4 +1,5 @@
 """C14: path, descriptor, virtual-I/O and embedded access give identical results."""
+import os
 import vlib, sdrive, formats, gens
 
 CMP = ("ok", "err", "fmt", "ch", "rate", "frames", "sections", "ret", "rpos", "dig", "val", "vals", "n", "list", "code", "count", "cues")
@@ -63,7 +64,7 @@ def run(ctx):
                "psf_fseek / psf_fread / psf_ftell / psf_get_filelen of src/file_io.c called directly on an embedded sound file (0..39 bytes of leading and trailing junk, "
                "fileoffset set) and through virtual callbacks: PRNG histories of SEEK_SET / SEEK_CUR seeks, reads and tells inside the file", key="fileio")
     script, plan = gen(ctx, q)
-    rc, hl, err = sdrive.run_harness(script, "C14_routes", timeout=1800)
+    rc, hl, err = sdrive.run_harness(script, "C14_routes", timeout=1800, env=dict(os.environ, SFD_RES="1"))
     if rc != 0:
         ctx.violation("routes:sanitizer", "route run ended rc=%d: %s" % (rc, " | ".join(err.strip().split("\n")[:3])[:400]), script[-4000:] + "\n" + err[-4000:])
         return
@@ -75,6 +76,15 @@ def run(ctx):
             return
         seen.add(key)
         ctx.violation("routes:" + key, msg[:400], "script:\n" + sdrive.section_prefix(script, ln)[-5000:] + "\n\ntranscript:\n" + hl.get(ln, ("", {}, ""))[2][:600])
+    # the descriptor table: after every sf_close and every failing sf_open the number of open descriptors is back to the base plus what the
+    # other live handles hold -- on every route, the virtual one included (sf_close must not touch descriptors it did not open)
+    src_lines = script.split("\n")
+    for ln in sorted(hl):
+        op, d, raw = hl[ln]
+        if "fdl" in d and d["fdl"] != "0":
+            t = src_lines[ln - 1].split()
+            route = (t + ["v"] * 9)[8][:1] if op == "open" else "?"
+            bad("descriptor_table:%s" % op, ln, "after `%s` the process has %s descriptor(s) more (or fewer, if negative) than it should: %s" % (src_lines[ln - 1][:80], d["fdl"], raw[:200]))
     for item in plan:
         kind, name, grp = item
         fam = formats.family(formats.MAJORS[name.split("/")[0]] | formats.SUBS[name.split("/")[1]])
